@@ -172,6 +172,7 @@ def oracle(case, res, extra):
     rng = random.Random(case.seed * 41 + 3)
     try:
         doc = schema(case.qref)
+        arg_doc = schema(case.qref)     # what is handed to the library; `doc` stays pristine for the expectations
     except Exception:
         return
     feats = set()
@@ -190,7 +191,7 @@ def oracle(case, res, extra):
         scan(case.spec)
     # ---- uncompiled
     try:
-        r1 = Routine.from_qref(doc, B)
+        r1 = Routine.from_qref(arg_doc, B)
         out = r1.to_qref(B)
     except Exception as e:
         res.violation("failing-input", f"exporting an uncompiled routine raised {type(e).__name__}", {"qref": case.qref}, str(e)[:300], "a schema-valid document")
